@@ -33,11 +33,12 @@ EXTENDS Naturals, Integers, Sequences
 \* ------------------------------------------------------------------ characters
 Width(c) == IF c < 128 THEN 1 ELSE IF c < 2048 THEN 2 ELSE IF c < 65536 THEN 3 ELSE 4
 
-RECURSIVE ByteLen(_)
-ByteLen(s) == IF s = <<>> THEN 0 ELSE Width(s[1]) + ByteLen(Tail(s))
-
-\* byte offset of character position p (1-based) in inp
-ByteOff(inp, p) == ByteLen(SubSeq(inp, 1, p - 1))
+\* (recursion on an index, not on Tail: TLC passes arguments lazily and a chain of Tails overflows)
+RECURSIVE ByteSum(_, _)
+ByteSum(s, n) == IF n = 0 THEN 0 ELSE Width(s[n]) + ByteSum(s, n - 1)
+ByteLen(s) == ByteSum(s, Len(s))
+\* byte offset of character position p (1-based)
+ByteOff(s, p) == ByteSum(s, p - 1)
 
 LowerAscii(c) == IF c >= 65 /\ c <= 90 THEN c + 32 ELSE c
 
